@@ -103,8 +103,7 @@ func runC03(c *Ctx) {
 	// R03.8: constant-position accesses in match and the decoders
 	var sub []*ssa.Function
 	for _, f := range fns {
-		switch f.Name() {
-		case "match", "LicenseName", "variantName", "detectionType":
+		if p.IsFn(f, v2pkg, "(*Classifier).match") || p.IsFn(f, v2pkg, "LicenseName") || p.IsFn(f, v2pkg, "variantName") || p.IsFn(f, v2pkg, "detectionType") {
 			sub = append(sub, f)
 		}
 	}
@@ -247,7 +246,7 @@ func checkTriple(c *Ctx, p *core.Prog, lit structLit, key, pos string) {
 	why := ""
 	for f, dec := range want {
 		call, isCall := lit.fields[f].(*ssa.Call)
-		if !isCall || call.Call.StaticCallee() == nil || call.Call.StaticCallee().Name() != dec || len(call.Call.Args) != 1 {
+		if !isCall || !p.IsFn(call.Call.StaticCallee(), v2pkg, dec) || len(call.Call.Args) != 1 {
 			ok = false
 			why = f + " is not " + dec + "(key)"
 			break
@@ -267,7 +266,7 @@ func checkTriple(c *Ctx, p *core.Prog, lit structLit, key, pos string) {
 			ok, why = false, "the decoded key is not the key of the corpus iteration"
 		} else if conf, isExC := lit.fields["Confidence"].(*ssa.Extract); !isExC {
 			ok, why = false, "Confidence is not a result of score"
-		} else if sc, isCall := conf.Tuple.(*ssa.Call); !isCall || sc.Call.StaticCallee() == nil || sc.Call.StaticCallee().Name() != "score" {
+		} else if sc, isCall := conf.Tuple.(*ssa.Call); !isCall || !p.IsFn(sc.Call.StaticCallee(), v2pkg, "(*Classifier).score") {
 			ok, why = false, "Confidence is not a result of score"
 		} else {
 			// score(c, l, id, d, ...) : l must be keyVal, d must be Extract #2 of the same Next
@@ -552,7 +551,7 @@ func checkKeyFormat(c *Ctx, p *core.Prog, rule string) {
 		ok, why := false, "no call of "+hop[1]
 		for _, call := range core.CallsIn(fn) {
 			cal := call.Common().StaticCallee()
-			if cal == nil || cal.Name() != hop[1] {
+			if cal == nil || !p.IsFn(cal, v2pkg, "(*Classifier)."+hop[1]) {
 				continue
 			}
 			ok, why = true, "parameters 1..3 forwarded in order"
